@@ -849,3 +849,14 @@ struct StdRange { uint64_t ii, ei; } sr;   /* the range object (begin()/end() of
         inst='iterator = random-access integer iterator; container begin()/end() as two integers for LocalRange',
         says='the per-thread piece is block_range(begin, end, tid, activeThreads): by the block_range lemmas the threads\' pieces are disjoint, ordered and cover the range',
     ))
+
+EXPLANATION = ('Every work-division routine named by the property is extracted from /repo, lowered to C and proved against a contract '
+               'for all sizes / part counts / weights (sizes <= 2^40..2^62, weights <= 2^20, units <= 2^16); cover, order and adjacency '
+               'are lemmas over those contracts.')
+NOT_DECIDED = ('libcusp DistributedGraph callers; block_range for signed IntTy (not instantiated in /repo); adjacency of the NODE pieces of '
+               'FileGraph::divideByEdge; FileGraph/OfflineGraph/LC_CSR divideByNode argument plumbing (one-line forwards to divideNodesBinarySearch).')
+ASSUMPTIONS = ['abstract prefix sum: monotone (lookup contract ps_at / eb_at, ghost probes); sizes <= 2^40, weights <= 2^20',
+               'cut view of divideNodesBinarySearch used by determineUnitRanges*: assumed contract dnbs_cut_u32, the logical consequence of the proved lemmas lemma_dnbs_adjacent/ends + determinism (hand-made step)',
+               'ghost view of the scale-factor vector inside divideNodesBinarySearch (entries id-1, id, last); determine_block_division proved separately on the real array',
+               'template code proved for the listed instantiations only (integer / counting iterators)',
+               'std::vector modelled by stubs/gv_vec.h (no reallocation); returned vectors lowered to out-parameters']
